@@ -255,6 +255,15 @@ def chop_structure(chk, mod):
         out = mod.FrameSequence.chop(seq, list(perm))
         results.add(tuple(f.tag for f in out.frames))
     chk.decided(f'{MOD}:FrameSequence.chop/result independent of the listing order (distinct distances)[6 orders]', results == {('src', 'src>near', 'src>near>mid', 'src>near>mid>far')}, detail=str(results))
+    # two disks at the same distance: every chopper is applied exactly once, in non-decreasing distance (either order of the twins)
+    chs2 = [C2('near', 5.0), C2('twin', 5.0), C2('far', 30.0)]
+    bad = []
+    for perm in itertools.permutations(chs2):
+        out = mod.FrameSequence.chop(mod.FrameSequence([F2('src')]), list(perm))
+        applied = out.frames[-1].tag.split('>')[1:]
+        if sorted(applied) != ['far', 'near', 'twin'] or applied[-1] != 'far' or len(out.frames) != 4:
+            bad.append(([c.name for c in perm], applied))
+    chk.decided(f'{MOD}:FrameSequence.chop/choppers at the same distance are all applied, once each[6 orders]', not bad, detail=str(bad[:2]))
 
 
 def lookup_by_distance(chk, mod):
@@ -345,6 +354,8 @@ def transmission_failures(n, seed, limit=3):
         chs = []
         for k in range(nch):
             d = float(rng.uniform(0.05, 1.0) if rng.random() < 0.3 else rng.uniform(1, 60))
+            if k and rng.random() < 0.25:
+                d = float(chs[int(rng.integers(0, k))].distance.value)      # a second disk at exactly the same distance (double-disk chopper)
             nw = int(rng.integers(1, 5))
             span = tmax + d * wmax * 1e-10 / h_over_m
             opens = np.sort(rng.uniform(-0.1 * span, span, nw))
@@ -356,6 +367,9 @@ def transmission_failures(n, seed, limit=3):
         desc = {'id': f'case{i}', 'index': i, 'seed': seed, 'n_choppers': nch}
         try:
             out = fs.chop(chs)
+            if len(out) != nch + 1:
+                fails.append({**desc, 'problem': f'{nch} choppers applied to the source frame give {len(out)} frames (one per chopper expected: distances {[c.distance.value for c in chs]})'})
+                continue
             dfinal = max([c.distance.value for c in chs] + [0.0]) + float(rng.uniform(0.5, 20))
             fr = out[sc.scalar(dfinal, unit='m')]
         except Exception as e:
@@ -414,10 +428,31 @@ def transmission_failures(n, seed, limit=3):
                 fr2 = None
             if fr2 is None:
                 pass
-            elif len(fr2.subframes) != len(fr.subframes) or any(not np.allclose(a.time.values, b.time.values, rtol=1e-9, atol=1e-15) or
-                                                               not np.allclose(a.wavelength.values, b.wavelength.values, rtol=1e-9)
-                                                               for a, b in zip(fr.subframes, fr2.subframes)):
-                prob = 'result depends on the order in which the choppers are listed'
+            elif len({c.distance.value for c in chs}) == len(chs):
+                # distinct distances: the same polygons, vertex by vertex
+                if len(fr2.subframes) != len(fr.subframes) or any(not np.allclose(a.time.values, b.time.values, rtol=1e-9, atol=1e-15) or
+                                                                  not np.allclose(a.wavelength.values, b.wavelength.values, rtol=1e-9)
+                                                                  for a, b in zip(fr.subframes, fr2.subframes)):
+                    prob = 'result depends on the order in which the choppers are listed'
+            else:
+                # disks at the same distance are applied in the order listed: the same region, possibly cut into the same polygons in
+                # another order and starting at another vertex -- compared as a region (area, membership of sample points)
+                polys2 = [(s_.time.values, s_.wavelength.values) for s_ in fr2.subframes]
+                area = lambda ps: sum(0.5 * abs(np.dot(ts, np.roll(ws, -1)) - np.dot(ws, np.roll(ts, -1))) for ts, ws in ps)
+                a1, a2 = area(polys), area(polys2)
+                if abs(a1 - a2) > 1e-9 * max(a1, a2, 1e-300):
+                    prob = f'result depends on the order in which the choppers are listed (area {a1} vs {a2})'
+                else:
+                    allt = np.concatenate([ts for ts, _ in polys] or [np.array([0.0, 1.0])])
+                    for _ in range(40):
+                        tq, lq = float(rng.uniform(allt.min(), allt.max())), float(rng.uniform(wmin, wmax))
+                        in1 = any(_point_in_polygon(tq, lq, ts, ws) for ts, ws in polys)
+                        in2 = any(_point_in_polygon(tq, lq, ts, ws) for ts, ws in polys2)
+                        if in1 != in2:
+                            edge = min([abs(tq - t_) for ts, _ in polys + polys2 for t_ in ts] or [1.0])
+                            if edge > 1e-9:
+                                prob = f'result depends on the order in which the choppers are listed (point t={tq}, lambda={lq})'
+                                break
         if prob is None:
             a = fs[0].propagate_to(sc.scalar(3.0, unit='m')).propagate_to(sc.scalar(11.0, unit='m'))
             b = fs[0].propagate_to(sc.scalar(11.0, unit='m'))
